@@ -218,7 +218,10 @@ func (s *Store) txnNode(tx WriteTxn, idx uint64, op *structs.TxnNodeOp) (structs
 	case api.NodeCAS:
 		var ok bool
 		ok, err = s.ensureNodeCASTxn(tx, idx, &op.Node)
-		if !ok && err == nil {
+		if err != nil {
+			break
+		}
+		if !ok {
 			err = fmt.Errorf("failed to set node %q, index is stale", op.Node.Node)
 			break
 		}
@@ -342,7 +345,10 @@ func (s *Store) txnCheck(tx WriteTxn, idx uint64, op *structs.TxnCheckOp) (struc
 		var ok bool
 		entry = &op.Check
 		ok, err = s.ensureCheckCASTxn(tx, idx, entry)
-		if !ok && err == nil {
+		if err != nil {
+			break
+		}
+		if !ok {
 			err = fmt.Errorf("failed to set check %q on node %q, index is stale", entry.CheckID, entry.Node)
 			break
 		}
